@@ -260,6 +260,38 @@ where
         let n = if it % 3 == 0 { rng.range(-40, 40) as i32 } else { POWI_EXPS[rng.below(POWI_EXPS.len() as u64) as usize] };
         ev_logs::<S, D>(ev, ls, ld, "powi", x, n as u32 as u128);
     }
+    // powi over the WHOLE i32 exponent range (the property quantifies over all 2^32 exponents; the grid above has 24 constants
+    // and |n| <= 40): random exponents and +-2^k, +-(2^k +- 1) for every k, with bases whose running power leaves the range after
+    // at most `width` multiplications (|x| >= 2, so the call is cheap whatever |n| is) or is zero.  Separate PRNG stream.
+    let mut rng2 = args.rng_for(ls, 121 + ld.id());
+    let one = 1u128 << ls.f;
+    for it in 0..args.n / 2 {
+        let n: i32 = match it % 4 {
+            0 => rng2.next() as u32 as i32,
+            1 => {
+                let k = rng2.below(32) as u32;
+                let v = (1u32 << k).wrapping_add(rng2.range(-1, 1) as i32 as u32) as i32;
+                if rng2.chance(1, 2) { v } else { v.wrapping_neg() }
+            }
+            2 => rng2.range(-70000, 70000) as i32,
+            _ => (rng2.next() as u32 as i32) >> rng2.below(24),
+        };
+        let x = match rng2.below(6) {
+            0 => 0,
+            1 => one << 1,
+            2 if ls.signed => (one << 1).wrapping_neg() & ls.mask(),
+            3 => ls.max_bits(),
+            4 if ls.signed => ls.min_bits(),
+            _ => {
+                // |x| in [2, 2^int): random magnitude, random sign
+                let ib = ls.n - ls.f - ls.signed as u32;
+                let len = ls.f + 2 + rng2.below((ib.max(2) - 1) as u64) as u32;
+                let v = ((rng2.next128() & mask(len)) | (1u128 << (len - 1))) & ls.max_bits();
+                if ls.signed && rng2.chance(1, 2) { v.wrapping_neg() & ls.mask() } else { v }
+            }
+        };
+        ev_logs::<S, D>(ev, ls, ld, "powi", x, n as u32 as u128);
+    }
 }
 
 fn drive_trig<T>(ev: &mut Ev, args: &Args, l: Lay)
